@@ -15,6 +15,9 @@ MCConfigs == {[backup |-> FALSE, sticky |-> "",   weight |-> 100],
 MCConfigsGen == MCConfigs \cup {[backup |-> TRUE,  sticky |-> "s2", weight |-> 0],
                                 [backup |-> FALSE, sticky |-> "s2", weight |-> 200]}
 
+\* the smallest instance in which an open deviation shows (one primary configuration, one backup)
+MCConfigsDev == {[backup |-> FALSE, sticky |-> "", weight |-> 100], [backup |-> TRUE, sticky |-> "", weight |-> 100]}
+
 AllPolicies == {"rr", "random", "leastLoaded", "p2c", "hrw", "maglev"}
 
 =============================================================================
